@@ -28,7 +28,7 @@ type Script struct {
 	NoWrite   bool                `json:"no_write,omitempty"`
 	Ret       int                 `json:"ret"`
 	Err       string              `json:"err,omitempty"`
-	Panic     string              `json:"panic,omitempty"` // "", "before", "after"
+	Panic     string              `json:"panic,omitempty"`      // "", "before", "after"
 	PanicWith string              `json:"panic_with,omitempty"` // "" (a string), "error", "runtime", "abort" (http.ErrAbortHandler)
 	EchoBody  bool                `json:"echo_body,omitempty"`
 	PauseMs   int                 `json:"pause_ms,omitempty"` // sleep after every chunk (keeps the handler in flight)
